@@ -1182,7 +1182,7 @@ class Lookup(Function):
             self.points = points
 
     def term(self, time="t"):
-        return "model._lookup({},{})".format(self.element, self.points)
+        return "model._lookup({},{})".format(extractTerm(self.element, time), self.points)
 
 
 class Step(Function):
@@ -1285,7 +1285,8 @@ class Delay(Function):
 
 
 def extractTerm(obj, time):
-    return obj.term(time) if isinstance(obj, Operator) else obj
+    # model elements are evaluated at the requested time too (a stock evaluates its equation at t-dt)
+    return obj.term(time) if isinstance(obj, (Operator, BPTK_Py.sddsl.element.Element)) else obj
 
 
 class Random(Function):
